@@ -23,6 +23,27 @@ pub mod vrev {
                 Ok(IpAddr::V6(a)) => ip_octets(s@) == Some(a.o@),
                 Err(_) => ip_octets(s@) is None } { unimplemented!() }
     }
+    // IPv4-mapped IPv6 addresses (::ffff:a.b.c.d) and the conversions std offers for them
+    pub open spec fn is_mapped(o: Seq<u8>) -> bool {
+        o.len() == 16 && (forall|i: int| 0 <= i < 10 ==> o[i] == 0) && o[10] == 0xff && o[11] == 0xff
+    }
+    pub open spec fn canonical(a: IpAddr) -> IpAddr {
+        match a {
+            IpAddr::V4(x) => a,
+            IpAddr::V6(x) => if is_mapped(x.o@) { IpAddr::V4(Ipv4Addr { o: [x.o@[12], x.o@[13], x.o@[14], x.o@[15]] }) } else { a },
+        }
+    }
+    impl IpAddr {
+        #[verifier::external_body]
+        pub fn to_canonical(&self) -> (r: IpAddr) ensures r == canonical(*self) { unimplemented!() }
+        pub fn is_ipv4(&self) -> (r: bool) ensures r == (*self is V4) { match self { IpAddr::V4(_) => true, IpAddr::V6(_) => false } }
+        pub fn is_ipv6(&self) -> (r: bool) ensures r == (*self is V6) { match self { IpAddr::V4(_) => false, IpAddr::V6(_) => true } }
+    }
+    impl Ipv6Addr {
+        #[verifier::external_body]
+        pub fn to_ipv4_mapped(&self) -> (r: Option<Ipv4Addr>)
+            ensures match r { Some(v) => is_mapped(self.o@) && v.o@ == seq![self.o@[12], self.o@[13], self.o@[14], self.o@[15]], None => !is_mapped(self.o@) } { unimplemented!() }
+    }
     impl Ipv4Addr { pub fn octets(&self) -> (r: [u8; 4]) ensures r == self.o { self.o } }
     impl Ipv6Addr { pub fn octets(&self) -> (r: [u8; 16]) ensures r == self.o { self.o } }
     // decimal text of a byte (u8::to_string)
